@@ -15,14 +15,17 @@ Local Open Scope nat_scope.
    [stage_complete] is C07 for one compiler: every valid source plan has a compiled plan, at most [st_aux] steps longer,
    that maps back to it modulo steps that change nothing ([sub_noop_eq], the relation of the C07_LA_* theorems).
    "Modulo" does not compose from plan-level facts alone: deleting a no-op step of the INTERMEDIATE plan must be
-   deleting a no-op step (or nothing) of the source plan.  [stage_noop] says exactly that, and every stage that
-   simulates its source problem step by step, with the compiled state determining the source state, has it: *)
+   deleting a no-op step (or nothing) of the source plan.  [stage_noop] says exactly that (for VALID compiled plans),
+   and every stage that simulates its source problem step by step has it, provided a compiled step that changes nothing
+   is matched by a source step that changes nothing (e.g. because the compiled state determines the source state, or
+   because the source step cannot touch the fluents the relation leaves open): *)
 Theorem C07_LA_pipe_simulation_noop :
   forall st : stage,
     (forall s s' x' t', st_rel st s s' -> st_okD st x' ->
        run (st_dst st) (spec_step false (st_dst st)) s' [x'] = Some t' ->
        exists t, run (st_src st) (spec_step false (st_src st)) s (ostep (st_back st) x') = Some t /\ st_rel st t t') ->
-    (forall s s' t t', st_rel st s s' -> st_rel st t t' -> state_eq s' t' -> state_eq s t) ->
+    (forall s s' x' t t', st_rel st s s' -> st_rel st t t' -> state_eq s' t' ->
+       run (st_src st) (spec_step false (st_src st)) s (ostep (st_back st) x') = Some t -> state_eq s t) ->
     stage_noop st.
 Proof. exact sim_noop. Qed.
 Print Assumptions C07_LA_pipe_simulation_noop.
@@ -43,7 +46,7 @@ Proof. exact compose_complete. Qed.
 Print Assumptions C07_LA_pipe_complete_composes.
 
 Theorem C07_LA_pipe_noop_composes :
-  forall a b : stage, st_dst a = st_src b -> stage_noop a -> stage_noop b -> stage_noop (compose a b).
+  forall a b : stage, st_dst a = st_src b -> stage_sound b -> stage_noop a -> stage_noop b -> stage_noop (compose a b).
 Proof. exact compose_noop. Qed.
 Print Assumptions C07_LA_pipe_noop_composes.
 
@@ -170,6 +173,69 @@ Theorem C07_LA_dcrgoal_complete :
                 sub_noop_eq P s0 pi (pback (dcrg_back cdnf pre_dnf nm fk gnm gds P) pi').
 Proof. exact dcrg_complete. Qed.
 Print Assumptions C07_LA_dcrgoal_complete.
+
+(* ---------------------------------------------------------------- third round: more compilers as certified stages *)
+Require Import UPV.Compilers.LayerA_Inv UPV.Compilers.LayerA_Neg.
+
+(* NegativeConditionsRemover (hypotheses of C06_LA_ncr_sound / C07_LA_ncr_complete); relation [neg_rel]: the compiled
+   state is NOT the source state.  stage_noop holds because no effect of a clean problem targets a negation fluent *)
+Theorem C07_LA_pipe_ncr_stage_certified :
+  forall (nmap : list (N * N)) (rw smp : expr -> expr) (P : problem),
+    nmap_ok nmap P = true -> problem_clean nmap P = true -> ncr_safe nmap P = true -> rw_ok nmap rw P -> smp_exact smp ->
+    certified (ncr_stage nmap rw smp P).
+Proof. exact ncr_stage_certified. Qed.
+Print Assumptions C07_LA_pipe_ncr_stage_certified.
+
+(* BoundedTypesRemover / StateInvariantsRemover: the relation carries "the moved constraints hold initially"; they do not
+   simulate step by step, stage_noop is proved along valid plans ([inv_noop]) *)
+Theorem C07_LA_pipe_btr_stage_certified :
+  forall (smp : expr -> expr), smp_holds smp -> forall P : problem, unique_ids P -> certified (btr_stage smp P).
+Proof. exact btr_stage_certified. Qed.
+Print Assumptions C07_LA_pipe_btr_stage_certified.
+
+Theorem C07_LA_pipe_sir_stage_certified :
+  forall (smp : expr -> expr), smp_holds smp ->
+  forall P : problem, unique_ids P -> Forall (closed_cond P) (p_invs P) -> certified (sir_stage smp P).
+Proof. exact sir_stage_certified. Qed.
+Print Assumptions C07_LA_pipe_sir_stage_certified.
+
+(* CLOSED THEOREM for CompilersPipeline([QuantifiersRemover(), NegativeConditionsRemover()]) *)
+Theorem C07_LA_pipe_quant_ncr_complete :
+  forall (smp : expr -> expr), smp_exact smp ->
+  forall (P : problem) (tau : N -> N), unique_ids P -> problem_wf P tau = true ->
+  forall (nmap : list (N * N)) (rw smp2 : expr -> expr),
+    nmap_ok nmap (quant_compile smp P) = true -> problem_clean nmap (quant_compile smp P) = true ->
+    ncr_safe nmap (quant_compile smp P) = true -> rw_ok nmap rw (quant_compile smp P) -> smp_exact smp2 ->
+    no_action_dropped smp P ->
+  forall (s0 s0' : state) (pi : pplan), bool_state P s0 -> neg_rel nmap s0 s0' -> plan_targets_total P pi ->
+    valid_plan false P s0 pi = true ->
+    exists pi', length pi' <= length pi /\
+                valid_plan false (neg_compile nmap rw smp2 (quant_compile smp P)) s0' pi' = true /\
+                sub_noop_eq P s0 pi (pback (pipeline_back (qn_stages smp nmap rw smp2 P)) pi').
+Proof. exact pipe_quant_ncr_complete. Qed.
+Print Assumptions C07_LA_pipe_quant_ncr_complete.
+
+(* CLOSED THEOREM for CompilersPipeline([BoundedTypesRemover(), ConditionalEffectsRemover()]) *)
+Theorem C07_LA_pipe_btr_cer_complete :
+  forall (smp : expr -> expr), smp_holds smp ->
+  forall P : problem, unique_ids P -> unique_ids (btr_compile smp P) ->
+  forall (simp_pre : list expr -> option (list expr)), simp_pre_ok simp_pre ->
+  forall (nm : N -> nat -> N), unique_ids (cer_compile simp_pre nm (btr_compile smp P)) ->
+  forall G : state -> Prop,
+    (forall s aid a args t, G s -> lookup_action (btr_compile smp P) aid = Some a ->
+       spec_step false (btr_compile smp P) s a args = Some t -> G t) ->
+    (forall s args i a, G s -> In (i, a) (p_actions (btr_compile smp P)) ->
+       Forall (cond_ok (btr_compile smp P) s a args) (cond_effs (a_effs a))) ->
+    (forall s args i a, G s -> In (i, a) (p_actions (btr_compile smp P)) ->
+       add_effs_ok [] [] (a_effs (ce_variant a (the_sel (btr_compile smp P) s a args))) = false ->
+       applicable (btr_compile smp P) s a args = false) ->
+  forall (s0 : state) (pi : pplan), all_hold false (mk_interp P s0 []) (bound_invs P) = true -> G s0 ->
+    valid_plan false P s0 pi = true ->
+    exists pi', length pi' <= length pi /\
+                valid_plan false (cer_compile simp_pre nm (btr_compile smp P)) s0 pi' = true /\
+                sub_noop_eq P s0 pi (pback (pipeline_back (bc_stages smp simp_pre nm G P)) pi').
+Proof. exact pipe_btr_cer_complete. Qed.
+Print Assumptions C07_LA_pipe_btr_cer_complete.
 
 (* ---------------------------------------------------------------- non-vacuity (instances of Props/C06_pipe.v) *)
 Example C07_LA_pipe_quant_cer_complete_nonvacuous :
